@@ -15,6 +15,18 @@
                        stuck one is terminated: no hang, no lost wake-up in the protocol
   * `validTrace_iff_schedule`  the decidable acceptor used by the harness on
                        real `POST /bulk` streams accepts exactly the traces of the system
+  * input layer (Model/BulkInput.lean: the stream as the reader meets it — complete requests,
+    values that do not decode, and an end that is clean, inside a value, or a failing reader):
+    `after_unreadable_ignored`, `unreadable_request_rule`, `truncated_input_rule`,
+    `clean_end_rule`, `owed_independent_of_ending`: the complete requests before the first
+    unreadable one are answered exactly as if the stream had ended cleanly after them; the
+    unreadable request gets no reply of its own, its position n+1 is the seq of the single
+    final marker, which carries the error flag and the partial request id
+  * context layer (workers read through the caller's cancellable context):
+    `uncancelled_results` (no cancellation by the caller ⇒ every reply is the request's
+    uncancelled result, whatever the ending), `cancelled_pairing`, `cancelled_payloads`
+    (with cancellations pairing is untouched and every reply is still the request's OWN
+    result, computed with or without the cancellation seen)
 
   What is NOT proved (and cannot be, in Lean): that the Go program has no data
   race on the shared regime / addon / tag / extension / schema / currency
@@ -31,7 +43,9 @@
   --   definitions ∧ each result = the sequential result ∧ (bulk) bulk_pairing on the real stream
 -/
 import GoblVerif.Proofs.Bulk
+import GoblVerif.Proofs.BulkInput
 import GoblVerif.Generated.BulkFacts
+import GoblVerif.Generated.BulkCtxFacts
 
 namespace GoblVerif.Props.C15
 open GoblVerif.Bulk List
@@ -210,6 +224,128 @@ theorem validTrace_iff_schedule [DecidableEq β] (c : Cfg α β) (hcap : 1 ≤ c
   · rintro ⟨sched, s, hex, hterm, rfl⟩
     exact validTrace_of_schedule c sched s hex hterm
 
+
+/-! ## the input layer: what a request that cannot be read gets
+
+`Model/BulkInput.lean`: the stream is a list of values (complete requests and
+values `Decode` fails on) and an `Ending` of the bytes; `parse` is the decode
+loop.  The rule pinned here is the one the harness judges real streams by. -/
+
+/-- nothing after the first unreadable value is ever read: what follows it,
+    and how the bytes end after it, do not change the run -/
+theorem after_unreadable_ignored (pre : List (Req α)) (id : String) (rest rest' : List (Item α))
+    (e e' : Ending) (f : Req α → β) (cap : Nat) :
+    Cfg.ofInput (pre.map Item.ok ++ Item.broken id :: rest) e f cap =
+      Cfg.ofInput (pre.map Item.ok ++ Item.broken id :: rest') e' f cap := by
+  simp [Cfg.ofInput, parse_unreadable]
+
+/-- what the complete requests are owed does not depend on how the stream ends -/
+theorem owed_independent_of_ending (c : Cfg α β) (t : Tail) :
+    expected { c with tail := t } = expected c := rfl
+
+/-- every ending, one rule: the replies are those owed after a clean end, all
+    with a position ≤ n and none final, then the single final marker with
+    position n+1 which says whether and with which partial id the input broke -/
+theorem ending_rule (c : Cfg α β) (sched : List Label) (s : State α β)
+    (hex : exec c (init c) sched = some s) (hterm : terminated s = true) :
+    ∃ body, s.out = body ++ [⟨c.tail.reqId, c.reqs.length + 1, none, true, c.tail.isErr⟩] ∧
+      body.Perm (expected { c with tail := .eof }) ∧
+      ∀ x ∈ body, x.isFinal = false ∧ 1 ≤ x.seq ∧ x.seq ≤ c.reqs.length := by
+  obtain ⟨body, hout, hperm, _, _, hnf⟩ := bulk_pairing c sched s hex hterm
+  refine ⟨body, hout, hperm, fun x hx => ⟨hnf x hx, ?_⟩⟩
+  exact expected_seq_bounds c x (hperm.subset hx)
+
+/-- **A request that cannot be decoded** (not JSON, or a wrongly typed member
+    that leaves `id` in `req_id`) after `pre` complete requests, whatever
+    follows it: every terminated run delivers a permutation of what `pre` is
+    owed after a clean end — positions 1..n, none of them the unreadable
+    request's — and then exactly the marker (id, n+1, no payload, final, error). -/
+theorem unreadable_request_rule (pre : List (Req α)) (id : String) (rest : List (Item α)) (e : Ending)
+    (f : Req α → β) (cap : Nat) (sched : List Label) (s : State α β)
+    (hex : exec (Cfg.ofInput (pre.map Item.ok ++ Item.broken id :: rest) e f cap)
+      (init (Cfg.ofInput (pre.map Item.ok ++ Item.broken id :: rest) e f cap)) sched = some s)
+    (hterm : terminated s = true) :
+    ∃ body, s.out = body ++ [unreadableMarker pre.length id] ∧
+      body.Perm (expected (Cfg.ofInput (pre.map Item.ok) .eof f cap)) ∧
+      ∀ x ∈ body, x.isFinal = false ∧ 1 ≤ x.seq ∧ x.seq ≤ pre.length := by
+  have hc : Cfg.ofInput (pre.map Item.ok ++ Item.broken id :: rest) e f cap =
+      { reqs := pre, tail := .bad id, f := f, cap := cap } := by
+    simp [Cfg.ofInput, parse_unreadable]
+  rw [hc] at hex
+  obtain ⟨body, hout, hperm, hb⟩ := ending_rule _ sched s hex hterm
+  refine ⟨body, ?_, ?_, hb⟩
+  · simpa [unreadableMarker, Tail.reqId, Tail.isErr] using hout
+  · simpa [Cfg.ofInput, parse_complete, Ending.tail] using hperm
+
+/-- **A request cut short, or a failing reader**, after `pre` complete
+    requests: the same, with an empty request id on the marker. -/
+theorem truncated_input_rule (pre : List (Req α)) (e : Ending) (he : e ≠ .eof)
+    (f : Req α → β) (cap : Nat) (sched : List Label) (s : State α β)
+    (hex : exec (Cfg.ofInput (pre.map Item.ok) e f cap) (init (Cfg.ofInput (pre.map Item.ok) e f cap)) sched = some s)
+    (hterm : terminated s = true) :
+    ∃ body, s.out = body ++ [unreadableMarker pre.length ""] ∧
+      body.Perm (expected (Cfg.ofInput (pre.map Item.ok) .eof f cap)) ∧
+      ∀ x ∈ body, x.isFinal = false ∧ 1 ≤ x.seq ∧ x.seq ≤ pre.length := by
+  have ht : e.tail = .bad "" := by cases e <;> simp_all [Ending.tail]
+  have hc : Cfg.ofInput (pre.map Item.ok) e f cap = { reqs := pre, tail := .bad "", f := f, cap := cap } := by
+    simp [Cfg.ofInput, parse_complete, ht]
+  rw [hc] at hex
+  obtain ⟨body, hout, hperm, hb⟩ := ending_rule _ sched s hex hterm
+  refine ⟨body, ?_, ?_, hb⟩
+  · simpa [unreadableMarker, Tail.reqId, Tail.isErr] using hout
+  · simpa [Cfg.ofInput, parse_complete, Ending.tail] using hperm
+
+/-- **A clean end**: the same replies, the marker without error. -/
+theorem clean_end_rule (pre : List (Req α)) (f : Req α → β) (cap : Nat) (sched : List Label) (s : State α β)
+    (hex : exec (Cfg.ofInput (pre.map Item.ok) .eof f cap) (init (Cfg.ofInput (pre.map Item.ok) .eof f cap)) sched = some s)
+    (hterm : terminated s = true) :
+    ∃ body, s.out = body ++ [⟨"", pre.length + 1, none, true, false⟩] ∧
+      body.Perm (expected (Cfg.ofInput (pre.map Item.ok) .eof f cap)) ∧
+      ∀ x ∈ body, x.isFinal = false ∧ 1 ≤ x.seq ∧ x.seq ≤ pre.length := by
+  have hc : Cfg.ofInput (pre.map Item.ok) .eof f cap = { reqs := pre, tail := .eof, f := f, cap := cap } := by
+    simp [Cfg.ofInput, parse_complete, Ending.tail]
+  rw [hc] at hex ⊢
+  obtain ⟨body, hout, hperm, hb⟩ := ending_rule _ sched s hex hterm
+  exact ⟨body, by simpa [Tail.reqId, Tail.isErr] using hout, hperm, hb⟩
+
+/-! ## the context layer: cancellation
+
+The workers' results depend on whether the shared context was cancelled
+(`CCfg.f req cancelled`); the only cancellation is the caller's (`CLabel.cancel`). -/
+
+/-- **Without a cancellation by the caller every reply is the request's
+    uncancelled result** — for every ending of the input, every schedule. -/
+theorem uncancelled_results (c : CCfg α β) (ls : List CLabel) (hn : ∀ l ∈ ls, l ≠ CLabel.cancel)
+    (s : CState α β) (hex : cexec c (cinit c) ls = some s) (hterm : terminated s.base = true) :
+    s.cancelled = false ∧
+    ∃ body, s.base.out = body ++ [finalResp (c.at false)] ∧ body.Perm (expected (c.at false)) ∧
+      ∀ x ∈ body, x.isFinal = false := by
+  obtain ⟨hc, sched, hex'⟩ := cexec_of_no_cancel c ls (cinit c) s hn hex
+  refine ⟨hc, ?_⟩
+  obtain ⟨body, hout, hperm, _, _, hnf⟩ := bulk_pairing (c.at false) sched s.base hex' hterm
+  exact ⟨body, hout, hperm, hnf⟩
+
+/-- **Cancellations do not disturb pairing**: whatever the caller cancels and
+    when, the replies with their payloads blanked are a permutation of
+    (req_idᵢ, i) for i = 1..n followed by the one final marker. -/
+theorem cancelled_pairing (c : CCfg α β) (ls : List CLabel) (s : CState α β)
+    (hex : cexec c (cinit c) ls = some s) (hterm : terminated s.base = true) :
+    ∃ body, s.base.out.map Resp.shape = body ++ [finalResp c.shape] ∧ body.Perm (expected c.shape) ∧
+      ∀ x ∈ body, x.isFinal = false := by
+  obtain ⟨sched, hex'⟩ := cexec_shape c ls (cinit c) s hex
+  have ht : terminated s.base.shape = true := by rw [terminated_shape]; exact hterm
+  obtain ⟨body, hout, hperm, _, _, hnf⟩ := bulk_pairing c.shape sched s.base.shape hex' ht
+  exact ⟨body, hout, hperm, hnf⟩
+
+/-- **… and every reply is the request's own result**, computed either with
+    or without the cancellation seen: a reply never carries anything else, in
+    particular never something that depends on another request. -/
+theorem cancelled_payloads (c : CCfg α β) (ls : List CLabel) (s : CState α β)
+    (hex : cexec c (cinit c) ls = some s) (r : Resp β) (hr : r ∈ s.base.out) (hnf : r.isFinal = false) :
+    r ∈ expected (c.at false) ∨ r ∈ expected (c.at true) := by
+  have inv := cinv_exec c ls (cinit c) s (cinv_init c) hex
+  exact inv.sent r (by simp [State.stream, hr]) hnf
+
 /-! ## non-vacuity: a concrete run with reordering, and a rejected trace -/
 
 /-- two requests, the second answered first -/
@@ -238,6 +374,37 @@ example : exec exCfg (init exCfg) [.read, .read, .stop, .send 0, .recv, .done, .
 -- the early-termination path: a decode error after one request
 example : finalResp { exCfg with reqs := [⟨"a", "x"⟩], tail := .bad "p" } = ⟨"p", 2, none, true, true⟩ := rfl
 
+-- the input layer: two complete requests, then a value with a wrongly typed member that left "p" in
+-- req_id, then a request that is never read; the second request is answered first
+def exItems : List (Item String) := [.ok ⟨"a", "x"⟩, .ok ⟨"b", "y"⟩, .broken "p", .ok ⟨"never", "z"⟩]
+example : parse exItems .eof = ([⟨"a", "x"⟩, ⟨"b", "y"⟩], Tail.bad "p") := rfl
+example : ∃ s, exec (Cfg.ofInput exItems .eof (fun r => r.body ++ "!") 1) (init (Cfg.ofInput exItems .eof (fun r => r.body ++ "!") 1))
+      [.read, .read, .send 1, .recv, .stop, .send 0, .done, .recv, .done, .final, .recv] = some s ∧
+    terminated s = true ∧
+    s.out = [⟨"b", 2, some "y!", false, false⟩, ⟨"a", 1, some "x!", false, false⟩, unreadableMarker 2 "p"] :=
+  ⟨_, rfl, rfl, rfl⟩
+-- a request cut short after one complete request (hypotheses of `truncated_input_rule`)
+example : ∃ s, exec (Cfg.ofInput [Item.ok ⟨"a", "x"⟩] .cut (fun r => r.body ++ "!") 1)
+      (init (Cfg.ofInput [Item.ok ⟨"a", "x"⟩] .cut (fun r => r.body ++ "!") 1))
+      [.read, .stop, .send 0, .done, .recv, .final, .recv] = some s ∧ terminated s = true ∧
+    s.out = [⟨"a", 1, some "x!", false, false⟩, unreadableMarker 1 ""] ∧ Ending.cut ≠ Ending.eof :=
+  ⟨_, rfl, rfl, rfl, by decide⟩
+-- the context layer: the caller cancels between the two sends; the first reply is the uncancelled
+-- result, the second the cancelled one (hypotheses of `cancelled_pairing` / `cancelled_payloads`),
+-- and without the cancel step both are uncancelled (hypotheses of `uncancelled_results`)
+def exCCfg : CCfg String String :=
+  { reqs := [⟨"a", "x"⟩, ⟨"b", "y"⟩], tail := .bad "", f := fun r b => if b then "cancelled" else r.body ++ "!", cap := 1 }
+example : ∃ s, cexec exCCfg (cinit exCCfg)
+      [.sys .read, .sys .read, .sys (.send 0), .sys .recv, .cancel, .sys .stop, .sys (.send 0), .sys .done, .sys .recv,
+       .sys .done, .sys .final, .sys .recv] = some s ∧ terminated s.base = true ∧ s.cancelled = true ∧
+    s.base.out = [⟨"a", 1, some "x!", false, false⟩, ⟨"b", 2, some "cancelled", false, false⟩, ⟨"", 3, none, true, true⟩] :=
+  ⟨_, rfl, rfl, rfl, rfl⟩
+example : ∃ s, cexec exCCfg (cinit exCCfg)
+      [.sys .read, .sys .read, .sys (.send 0), .sys .recv, .sys .stop, .sys (.send 0), .sys .done, .sys .recv,
+       .sys .done, .sys .final, .sys .recv] = some s ∧ terminated s.base = true ∧
+    s.base.out = [⟨"a", 1, some "x!", false, false⟩, ⟨"b", 2, some "y!", false, false⟩, ⟨"", 3, none, true, true⟩] :=
+  ⟨_, rfl, rfl, rfl⟩
+
 /-! ## expectations over facts regenerated from /repo/internal/cli/bulk.go
 
 The model was written against this synchronisation skeleton.  Moving
@@ -260,5 +427,34 @@ theorem action_list : actions =
      "schemas", "schema", "regime"] := by decide
 
 end Expect
+
+/-! ## expectations over `Generated/BulkCtxFacts.lean`
+
+What the input and context layers assume about the source beyond the
+synchronisation skeleton: the worker's context is the caller's (no context is
+derived, rebound or cancelled inside `Bulk`: how the stream ends cannot reach
+a dispatched request), the decode-error branch is one branch for every error
+and builds the marker the rule above describes, a fresh request structure per
+iteration, and a cancellable reader shares nothing with another reader (no
+package-level state, the inner read gets the caller's own slice). -/
+namespace ExpectCtx
+open GoblVerif.Generated.BulkCtx
+
+theorem worker_context_is_the_callers :
+    bulkParams = ["ctx context.Context", "opts *BulkOptions"] ∧ workerArgs = ["ctx", "req", "seq", "opts"] ∧
+      contextCalls = [] ∧ ctxRebound = 0 ∧ otherFunctionsCalled = [] := by decide
+theorem decode_error_branch_as_modelled : decodeErrorBranch =
+    ["wg.Wait()", "res := &BulkResponse{ ReqID: req.ReqID, SeqID: seq, IsFinal: true, }",
+     "if err != io.EOF { res.Error = wrapError(StatusUnprocessableEntity, err) }", "resCh <- res", "return"] := by decide
+theorem read_loop_as_modelled : readLoop =
+    ["seq := atomic.AddInt64(&seq, 1)", "var req BulkRequest", "err := dec.Decode(&req)", "if err != nil {...}",
+     "wg.Add(1)", "go func() { resCh <- processRequest(ctx, req, seq, opts) wg.Done() }()"] := by decide
+theorem cancellable_reader_shares_nothing :
+    readerPackageVars = [] ∧ readParam = "p" ∧ innerReadArgs = ["p"] := by decide
+theorem cancellable_reader_as_modelled : readerRead =
+    ["var c int", "var err error", "wait := make(chan struct{}, 1)", "go func", "  c, err = r.r.Read(p)", "  close(wait)",
+     "select", "case <-r.ctx.Done(): return 0, r.ctx.Err()", "case <-wait: return c, err"] := by decide
+
+end ExpectCtx
 
 end GoblVerif.Props.C15
